@@ -260,6 +260,9 @@ func c20Labels(chain []int) []string {
 func init() { Registry["C20"] = runC20 }
 
 func runC20(ctx Ctx) int {
+	if rc, ok := concDispatch("C20", ctx); ok {
+		return rc
+	}
 	run := ev.NewRun("C20")
 	run.Rule = "full product of step-symbol chains (17 symbols = 8 step kinds x {pass, fail, condition-false}) executed on the real checker.Checker with recording closures; each chain evaluated twice; every chain of length <= 3 that contains a failing logic step again with 12 other error values (context.Canceled / DeadlineExceeded plain and wrapped, io, os, net and http sentinel errors, an error with empty text, joined errors); plus per-kind parameter products"
 	run.Assume = []string{"the number of times a value getter is invoked is not constrained (the statement does not fix it)", "body evaluation of a conditional step whose condition is false is not constrained"}
@@ -478,6 +481,13 @@ func runC20(ctx Ctx) int {
 			}
 		})
 		run.Set("chains_with_distinct_value_names", len(chains))
+	}
+	{
+		cb, cs := 1, 90
+		if ev.Tier() == "thorough" {
+			cb, cs = 2, 1200
+		}
+		runConc(run, "C20", cb, cs)
 	}
 	c20Kinds(run)
 	return run.Finish()
